@@ -1,9 +1,157 @@
-(* C14 -- reported hydrogen bonds are exactly those meeting the stated criteria.  Statements only. *)
-From Coq Require Import List ZArith Bool.
+(* C14 -- reported hydrogen bonds are exactly those meeting the stated criteria.
+   Statements only, closed by [exact]; definitions in Hbond/Model.v, Hbond/KsModel.v, proofs in
+   Hbond/Proofs.v, Hbond/KsProofs.v, Hbond/KsSpec.v, Hbond/CosR.v. *)
+From Coq Require Import List ZArith Bool Reals Sorting.Permutation.
 Import ListNotations.
-Require Import MD.Gen.HbondTables MD.Hbond.Model MD.Hbond.KsModel MD.Hbond.Run.
+Require Import MD.Gen.HbondTables MD.Hbond.Model MD.Hbond.KsModel MD.Hbond.Run
+               MD.Hbond.Proofs MD.Hbond.KsProofs MD.Hbond.KsSpec MD.Hbond.CosR.
+Local Open Scope Z_scope.
 
-Example store_example : run_store true [(7%nat, (-2)%Z); (8%nat, (-3)%Z); (9%nat, (-1)%Z)] =
-  ((Some 8%nat, Some (-3)%Z), (Some 7%nat, Some (-2)%Z)).
+(* ---------------------------------------------------------------- candidate triplets *)
+(* (d, h, a) is a candidate iff d is an N or O bonded in the topology to the hydrogen h, a is an N or O
+   atom, all three pass the water / sidechain filters, and d <> a *)
+Theorem triplets_spec : forall ew sc t l d h a, bond_triplets ew sc t = Ok l ->
+  (In (d, h, a) l <->
+   (donor_pair ew sc t EN d h \/ donor_pair ew sc t EO d h) /\ acceptor_atom ew sc t a /\ d <> a).
+Proof. exact Proofs.triplets_spec. Qed.
+Print Assumptions triplets_spec.
+
+Theorem triplets_error_iff_no_bonds : forall ew sc t, bond_triplets ew sc t = ErrNoBonds <-> t_bonds t = [].
+Proof. exact triplets_error. Qed.
+Print Assumptions triplets_error_iff_no_bonds.
+
+(* ---------------------------------------------------------------- Baker-Hubbard *)
+(* the two-stage computation (distance prefilter by frequency, then the full criterion on the
+   survivors) returns exactly what the one-stage criterion returns *)
+Theorem prefilter_harmless : forall p t fs, 0 <= snd (bh_freq p) ->
+  baker_hubbard p t fs =
+  match bond_triplets (bh_ew p) (bh_sc p) t with
+  | ErrNoBonds => ErrNoBonds
+  | Ok trip => Ok (filter (fun tr => often p fs (fun f => bh_presence p f tr)) trip)
+  end.
+Proof. exact bh_prefilter_harmless. Qed.
+Print Assumptions prefilter_harmless.
+
+(* a triplet is returned iff it is a candidate and the number of frames in which BOTH
+   d(H,A) < cutoff and angle(D,H,A) > angle_cutoff hold exceeds freq * n_frames -- all strict *)
+Theorem bh_spec : forall p t fs l tr, 0 <= snd (bh_freq p) -> baker_hubbard p t fs = Ok l ->
+  (In tr l <->
+   exists trip, bond_triplets (bh_ew p) (bh_sc p) t = Ok trip /\ In tr trip /\ fs <> [] /\
+     fst (bh_freq p) * Z.of_nat (length fs) <
+     snd (bh_freq p) * count (fun f => bh_close p f tr && bh_wide p f tr) fs).
+Proof. exact Proofs.bh_spec. Qed.
+Print Assumptions bh_spec.
+
+(* the distance test on exact squared distances *)
+Theorem distance_test_strict : forall d2 cn cd, dist_lt d2 cn cd = true <-> 0 < cn /\ d2 * (cd * cd) < cn * cn.
+Proof. exact dist_lt_spec. Qed.
+Print Assumptions distance_test_strict.
+
+(* the angle test: cos_lt decides  N / (2 sqrt(A B)) < kn / kd  exactly (angle > theta <=> cos < cos theta
+   on [0, pi]); N = a^2 + b^2 - c^2 is twice the dot product of the sides meeting at H.
+   Over R: depends on the standard-library axioms of the reals. *)
+Theorem angle_test_exact : forall N A B kn kd : Z, 0 < A -> 0 < B -> 0 < kd ->
+  (cos_lt N A B kn kd = true <-> (IZR N / (2 * sqrt (IZR A * IZR B)) < IZR kn / IZR kd)%R).
+Proof. exact cos_lt_correct. Qed.
+Print Assumptions angle_test_exact.
+
+Theorem law_of_cosines : forall px py pz ux uy uz vx vy vz : Z,
+  (sq (ux - px) + sq (uy - py) + sq (uz - pz)) + (sq (vx - px) + sq (vy - py) + sq (vz - pz))
+  - (sq (vx - ux) + sq (vy - uy) + sq (vz - uz))
+  = 2 * ((ux - px) * (vx - px) + (uy - py) * (vy - py) + (uz - pz) * (vz - pz)).
+Proof. exact law_of_cosines_numerator. Qed.
+Print Assumptions law_of_cosines.
+
+(* ---------------------------------------------------------------- Wernet-Nilsson *)
+Theorem wn_prefilter_harmless : forall p t fs,
+  wernet_nilsson p t fs =
+  match bond_triplets (wn_ew p) (wn_sc p) t with
+  | ErrNoBonds => ErrNoBonds
+  | Ok trip => Ok (map (fun f => filter (fun tr => wn_presence p f tr) trip) fs)
+  end.
+Proof. exact Proofs.wn_prefilter_harmless. Qed.
+Print Assumptions wn_prefilter_harmless.
+
+(* the cone never accepts a donor-acceptor pair at or beyond the 0.33 nm apex distance (exact test) *)
+Theorem wn_cone_inside_cutoff : forall p f tr, wn_presence p f tr = true -> wn_close p f tr = true.
+Proof. exact wn_presence_close. Qed.
+Print Assumptions wn_cone_inside_cutoff.
+
+(* ---------------------------------------------------------------- store_energies *)
+(* after ANY sequence of calls the two slots hold the first two calls in the ranking by energy
+   (earlier call first among equal energies): induction over the call sequence *)
+Theorem best_two : forall calls,
+  fold_left (fun s c => store s (fst c) (snd c)) calls empty_nan = slots_of (firstn 2 (ranked calls)).
+Proof. exact Proofs.best_two. Qed.
+Print Assumptions best_two.
+
+(* the ranking is a sorted permutation of the calls: the slots hold the two lowest energies in order *)
+Theorem best_two_are_the_lowest : forall calls x y rest, ranked calls = x :: y :: rest ->
+  snd x <= snd y /\ (forall z, In z rest -> snd y <= snd z) /\ Permutation calls (x :: y :: rest).
+Proof. exact best_two_lowest. Qed.
+Print Assumptions best_two_are_the_lowest.
+
+(* dssp() starts from energies 0.0 instead of NaN: same bonds, since only negative energies are stored *)
+Theorem best_two_zero_init : forall calls : list call, (forall c, In c calls -> snd c < 0) ->
+  slot_list (fold_left (fun s c => store s (fst c) (snd c)) calls empty_zero) =
+  slot_list (fold_left (fun s c => store s (fst c) (snd c)) calls empty_nan).
+Proof. exact init_zero_equiv. Qed.
+Print Assumptions best_two_zero_init.
+
+(* ---------------------------------------------------------------- Kabsch-Sander pair loop *)
+(* PARTIAL (ks_spec).  Full statement: "for each frame exactly the CO(a) -> NH(d) pairs whose energy from
+   the documented formula, with the hydrogen placed as documented, is below -0.5 kcal/mol, best two per
+   donor".  Proved, for EVERY energy function E (total): the loop over residue pairs reports for donor d
+   the two lowest-energy acceptors, in order, among the acceptors a that are complete, different from d
+   and from d-1, with CA(d)-CA(a) closer than the prefilter, E d a below the threshold, d not a proline
+   and complete.  Not proved: that the fixed-point evaluation of the energy in the model equals the
+   documented formula (numerical; tied to mdtraj by the correspondence within 1e-3 kcal/mol). *)
+Theorem ks_spec_partial : forall p xyz rs (E : nat -> nat -> Z),
+  ks_loop p empty_nan rs xyz (fun d a => Some (E d a)) =
+  Some (map (fun d => slots_of (firstn 2 (ranked (map (fun a => (a, E d a))
+                                                    (filter (eligible p xyz rs E d) (seq 0 (length rs)))))))
+            (seq 0 (length rs))).
+Proof. exact ks_spec. Qed.
+Print Assumptions ks_spec_partial.
+
+(* ---------------------------------------------------------------- Kabsch-Sander hydrogen position *)
+(* as found: the result of a frame depends on data outside the frame (index -1) *)
+Theorem ks_h_position_refuted : exists p init rs xyz oob1 oob2,
+  ks_hv p = h_cur /\
+  kabsch_sander_frame p init rs xyz oob1 <> kabsch_sander_frame p init rs xyz oob2.
+Proof. exact KsProofs.ks_h_position_refuted. Qed.
+Print Assumptions ks_h_position_refuted.
+
+(* minimal repair: the result of a frame is a function of that frame alone *)
+Theorem ks_h_position_fixed : forall G thr ca2 init rs xyz oob1 oob2,
+  kabsch_sander_frame (mkKS G h_fix thr ca2) init rs xyz oob1 =
+  kabsch_sander_frame (mkKS G h_fix thr ca2) init rs xyz oob2.
+Proof. exact ks_fix_frame_local. Qed.
+Print Assumptions ks_h_position_fixed.
+
+(* ---------------------------------------------------------------- constants of today's source *)
+Definition qeq (a b : Z * Z) : Prop := fst a * snd b = fst b * snd a /\ 0 < snd a.
+Theorem constants_as_documented :
+  qeq bh_distance_cutoff (25, 100) /\ qeq bh_angle_cutoff (120, 1) /\
+  qeq wn_distance_cutoff (33, 100) /\ qeq wn_angle_const (44, 1000000) /\
+  qeq ks_energy_cutoff (-5, 10) /\ qeq ks_minimal_ca_distance2 (81, 100) /\
+  qeq ks_coupling (27888, 10000) /\ ks_coupling_signs = [-1; -1; 1; 1] /\
+  qeq ks_nh_length (1, 10) /\ qeq ks_energy_floor (-99, 10).
+Proof. unfold qeq. repeat split; reflexivity. Qed.
+Print Assumptions constants_as_documented.
+
+(* ---------------------------------------------------------------- non-vacuity *)
+Example store_example : run_store true [(7%nat, -2); (8%nat, -3); (9%nat, -1); (10%nat, -3)] =
+  ((Some 8%nat, Some (-3)), (Some 10%nat, Some (-3))).
 Proof. reflexivity. Qed.
 Print Assumptions store_example.
+
+(* a water dimer: O-H...O with H 0.2 nm from the acceptor on the O...O axis is a Baker-Hubbard bond *)
+Definition ex_topo : topo :=
+  mkTopo [mkAtom EO false false; mkAtom EH false false; mkAtom EH false false; mkAtom EO false false]
+         [(0%nat, 1%nat); (2%nat, 0%nat)].
+Definition ex_frame : frame := mkFrame [(0, 0, 0); (100, 0, 0); (-30, 95, 0); (300, 0, 0)] None.
+Example bh_example :
+  baker_hubbard (mkBH false false false (1, 10) (256, 1) (-1, 2)) ex_topo [ex_frame] = Ok [(0%nat, 1%nat, 3%nat)].
+Proof. vm_compute. reflexivity. Qed.
+Print Assumptions bh_example.
